@@ -11,7 +11,7 @@ import z3
 
 from . import ops
 from .interp import UNBOUND, Frame, Interp, PathEnd
-from .path import Obligation, Path
+from .path import Obligation, Path, TraceMisaligned
 from .registry import Contract, Registry
 from .solve import SolveResult, check_obligation, concretize
 from .sym import (
@@ -111,7 +111,8 @@ def _modifies_paths(con: Contract) -> set:
 
 
 def verify_contract(reg: Registry, con: Contract, timeout_ms: int = 10000, second: bool = True,
-                    max_paths: int = MAX_PATHS, budget_s: float = 600.0) -> UnitResult:
+                    max_paths: int = MAX_PATHS, budget_s: float = 600.0, root: Optional[list] = None) -> UnitResult:
+    """root=<decision prefix> restricts the exploration to the paths below that prefix (units split across workers)."""
     res = UnitResult(con.target)
     t_start = time.time()
     is_lemma = con.target.startswith("lemma:")
@@ -119,7 +120,7 @@ def verify_contract(reg: Registry, con: Contract, timeout_ms: int = 10000, secon
     if not is_lemma:
         func, defcls = reg.resolve(con.target)
         res.source = reg.source_info(func)
-    worklist: list = [[]]
+    worklist: list = [[]] if root is None else [list(root)]
     canary_seen = False
     while worklist:
         trace = worklist.pop()
@@ -127,6 +128,7 @@ def verify_contract(reg: Registry, con: Contract, timeout_ms: int = 10000, secon
             res.errors.append(f"path budget {max_paths} exceeded")
             break
         p = Path(trace, worklist, con.target)
+        p.root_locked = root is not None  # type: ignore[attr-defined]
         it = Interp(p, reg)
         try:
             _run_path(reg, con, func, defcls, p, it, res, is_lemma)
@@ -136,6 +138,8 @@ def verify_contract(reg: Registry, con: Contract, timeout_ms: int = 10000, secon
             continue
         except PathEnd:
             res.paths += 1
+        except TraceMisaligned as e:
+            res.errors.append(f"trace misaligned: {e}")
         except Unsupported as e:
             res.unsupported.append({"what": str(e), "decisions": [f"{l}={d}" for l, d in p.decision_labels][-8:]})
             res.paths += 1
@@ -154,7 +158,10 @@ def verify_contract(reg: Registry, con: Contract, timeout_ms: int = 10000, secon
         for a in p.atoms.values():
             if a[0] == "int":  # prefer small integers in counter-models as well (replay must stay cheap)
                 caps.append(z3.If(a[1] >= 0, a[1], -a[1]) / 64)
+        kf = getattr(p, "kf", None)
         for ob in p.obls:
+            if kf is not None:
+                ob.name = f"known:{kf}:{ob.name}"
             if time.time() - t_start > budget_s:
                 o = res.ob(ob.name)
                 o.add(SolveResult("unknown", "none", 0.0, reason="unit time budget exhausted"))
@@ -179,6 +186,43 @@ def verify_contract(reg: Registry, con: Contract, timeout_ms: int = 10000, secon
     return res
 
 
+def enumerate_prefixes(reg: Registry, con: Contract, depth: int) -> list:
+    """Feasible decision prefixes of length <= depth (phase 1 of splitting a unit across workers)."""
+    from .path import StopAtDepth
+
+    is_lemma = con.target.startswith("lemma:")
+    func = defcls = None
+    if not is_lemma:
+        func, defcls = reg.resolve(con.target)
+    worklist: list = [[]]
+    prefixes: list = []
+    n = 0
+    while worklist and n < 2000:
+        trace = worklist.pop()
+        n += 1
+        p = Path(trace, worklist, con.target)
+        p.stop_depth = depth if len(trace) < depth else None
+        if p.stop_depth is None:
+            prefixes.append(list(trace))
+            continue
+        it = Interp(p, reg)
+        res = UnitResult(con.target)
+        try:
+            _run_path(reg, con, func, defcls, p, it, res, is_lemma)
+            prefixes.append(list(p.trace))
+        except StopAtDepth:
+            prefixes.append(list(p.trace[:depth]))
+        except DeadPath:
+            continue
+        except Exception:  # pylint: disable=broad-except
+            prefixes.append(list(p.trace))
+    uniq = []
+    for pf in prefixes:
+        if pf not in uniq:
+            uniq.append(pf)
+    return uniq
+
+
 def _counterexample(p: Path, m: Any, ob: Obligation) -> dict:
     out: dict = {"decisions": [f"{l}={d}" for l, d in p.decision_labels], "note": ob.note}
     bound = getattr(p, "entry_bound", None)
@@ -196,10 +240,14 @@ def _run_path(reg: Registry, con: Contract, func: Any, defcls: Any, p: Path, it:
               is_lemma: bool) -> None:
     # 1. symbolic parameters
     bound: dict = {}
+    vtypes = dict(con.ann)
+    for c in con.of("verify_types"):  # the body is verified on these (sub-)domains; the annotation is the call-site domain
+        for kw in c.node.keywords:
+            vtypes[kw.arg] = eval(compile(ast.Expression(kw.value), "<verify_types>", "eval"), con.module.__dict__)  # pylint: disable=eval-used
     for name in con.params:
-        if name not in con.ann:
+        if name not in vtypes:
             raise Unsupported(f"parameter {name} of the contract has no type annotation")
-        bound[name] = reg.make_symbolic(it, name, con.ann[name])
+        bound[name] = reg.make_symbolic(it, name, vtypes[name])
     p.entry_bound = copy.deepcopy(bound)  # type: ignore[attr-defined]  # the pre-state (symbolic leaves are shared)
     fr = reg.spec_frame(con, bound)
     fr.result = UNBOUND
@@ -211,6 +259,14 @@ def _run_path(reg: Registry, con: Contract, func: Any, defcls: Any, p: Path, it:
         p.assumption_ids.add("assume@" + con.target)
     if not p.feasible():
         raise DeadPath()
+    # known-finding classes: the obligations are decided separately inside and outside each recorded input class
+    for c in con.of("known_finding"):
+        kid = it.ev(c.arg(0), fr)
+        when = c.arg(1) or c.kwarg("when")
+        w = True if when is None else reg.eval_bool(it, when, fr)
+        if p.branch(w, f"known-finding:{kid}"):
+            p.kf = kid  # type: ignore[attr-defined]
+            break
     if is_lemma:
         for c in con.of("ensures", "check"):
             p.oblige(f"lemma:{c.label or c.idx}", reg.eval_bool(it, c.arg(0), fr))
@@ -241,13 +297,10 @@ def _run_path(reg: Registry, con: Contract, func: Any, defcls: Any, p: Path, it:
                 raise Unsupported(f"contract of {con.target} does not bind parameter {name}")
     outcome_exc = None
     result: Any = None
-    reg.force_inline = {con.target}
     try:
-        result = it.run_function(func, args_for_body, defcls)
+        result = it.run_function(func, args_for_body, defcls)  # recursive calls go through the contract (induction hypothesis)
     except PyRaise as pr:
         outcome_exc = pr.exc
-    finally:
-        reg.force_inline = set()
     fr.old = old_fr
     # 5. postconditions
     if outcome_exc is not None:
